@@ -32,23 +32,23 @@ def repo_on_path():
 
 def install_shim():
     import src.ir.node as n
-    c = itertools.count(1)
+    box = [itertools.count(1)]
 
     def _new(cls, *a, **k):
         o = object.__new__(cls)
-        o.__dict__['_vh'] = next(c)
+        o.__dict__['_vh'] = next(box[0])
         return o
 
     def _hash(self):
         try:
             return self.__dict__['_vh']
         except KeyError:                       # unpickled without stamp
-            v = self.__dict__['_vh'] = next(c)
+            v = self.__dict__['_vh'] = next(box[0])
             return v
     n.Node.__new__ = staticmethod(_new)
     n.Node.__hash__ = _hash
     _state['shim'] = True
-    _state['counter'] = c
+    _state['counter'] = box
 
 
 def light(pool_seed=0, shim=True):
@@ -90,3 +90,7 @@ def reseed(seed):
     from src import utils
     utils.random.r.seed(seed)
     utils.random.reset_word_pool()
+    if 'counter' in _state:
+        # stamps only have to be unique among live nodes of one case; restarting
+        # makes a case independent of what ran before it in the same process
+        _state['counter'][0] = itertools.count(1000000)
